@@ -204,8 +204,68 @@ def printer_kind(inner):
     return type(inner).__name__ + ':' + (inner.ty if isinstance(inner, Adt) else '')
 
 
+def ob_serde_facets(chk, P):
+    with chk.obligation('serde/variant-naming-and-dispatch', "enum variants are keyed by the VARIANT name (never the enum's type name) by the value and object serializers; "
+                        "ValueDeserializer::deserialize_any hands the visitor the kind the value has: an integer scalar as an integer (also when it would fit a float), "
+                        "a non-integral number as a float, then bool, sequence, unit (strings: Cow<str> is flattened in the string model, not covered)",
+                        {'serializers': 'ValueSerializer, ObjectSerializer: serialize_tuple_variant, serialize_struct_variant', 'values': 'any i64, any f64, any bool, array, nil'}) as ob:
+        ex = Executor(P, models_with([])); ex.seed = chk.seed
+        # ---- variant naming
+        for ser in ('ValueSerializer', 'ObjectSerializer'):
+            for meth in ('serialize_tuple_variant', 'serialize_struct_variant'):
+                try:
+                    fn = P.find_method(ser, meth, 'Serializer', 'core')
+                except Unsupported as e:
+                    ob.inconclusive(str(e)); continue
+                st = State()
+                argv = [Adt(ser, None, []), st.ref(StrV('EnumTypeName', 'str')), Int(3, 'u32'), st.ref(StrV('VariantName', 'str')), Int(2, 'usize')]
+                for s2, kind, val in ex.run(fn, argv, st):
+                    ob.paths += 1; ob.reached()
+                    txt = repr(s2.deref_all(val.items[0])) if kind == 'ret' and isinstance(val, Adt) and val.variant == 'Ok' else f'{kind} {val}'
+                    bad = ('VariantName' not in txt) or ('EnumTypeName' in txt)
+                    ob.decide(ex, s2.conds, z3.BoolVal(bad))
+                    if bad:
+                        ob.violation(f'serde/{ser}/{meth}', f'{ser}::{meth}("EnumTypeName", 3, "VariantName", 2) builds {txt[:200]}', {}, {'kind': 'views'}, lambda r: r.get('outcome') == 'violation')
+        # ---- deserialize_any dispatch
+        try:
+            fn = P.find_method('&mut ValueDeserializer', 'deserialize_any', 'Deserializer', 'core')
+        except Unsupported:
+            fn = P.find(r'^fn (?:\w+::)*<impl at crates/core/src/model/value/ser.rs:\d+:\d+: \d+:\d+>::deserialize_any', 'core')
+        x = z3.BitVec('dx', 64); f = z3.FP('df', z3.Float64()); b = z3.Bool('db')
+        def visitor():
+            def h(ctx, me, args, st):
+                m = method_of(ctx.callee)
+                if m.startswith('visit_'):
+                    log_call(st, 'visit', m)
+                    return ret(st, Ok(Opaque(('visited', m))))
+                return None
+            return Abs('visitor', h)
+        cases = [('integer', value_scalar(scalar_int(Int(x, 'i64'))), {'visit_i64'}), ('float', value_scalar(scalar_float(Float(f))), None), ('bool', value_scalar(scalar_bool(Bool(b))), {'visit_bool'}),
+                 ('nil', VALUE_NIL, {'visit_unit', 'visit_none'}),
+                 ('array', Adt('Value', 'Array', [VecV([], 'Vec')]), {'visit_seq'})]
+        for name, v, want in cases:
+            st = State()
+            de = st.ref(Adt('ValueDeserializer', None, [st.ref(v)], ['input']), True)
+            for s2, kind, val in ex.run(fn, [de, visitor()], st):
+                ob.paths += 1; ob.reached()
+                seen = [c[1] for c in calls(s2, 'visit')]
+                if name == 'float':
+                    # a float scalar is an integer for the value model exactly when it is integral and in range (to_integer); otherwise it must reach visit_f64
+                    ok = len(seen) == 1 and seen[0] in ('visit_f64', 'visit_i64')
+                    bad_c = z3.BoolVal(not ok)
+                    if ok and seen[0] == 'visit_i64':
+                        bad_c = z3.Not(z3.fpEQ(z3.fpRoundToIntegral(z3.RTZ(), f), f))      # handed over as an integer although it has a fractional part
+                else:
+                    bad_c = z3.BoolVal(not (kind == 'ret' and len(seen) == 1 and seen[0] in want))
+                m = ob.decide(ex, s2.conds, bad_c)
+                if m is not None:
+                    ob.violation(f'serde/deserialize_any/{name}', f'deserialize_any on a {name} value called {seen} ({kind} {str(val)[:80]})', {'kind': name}, {'kind': 'views'}, lambda r: r.get('outcome') == 'violation')
+        ob.absorb(ex)
+
+
 def run(chk):
     P = chk.program(('core',))
     ob_forwarding(chk, P)
     ob_owned_agreement(chk, P)
     ob_narrowing(chk, P)
+    ob_serde_facets(chk, P)
